@@ -27,6 +27,7 @@ CONSTANTS
   StopChan = "once"
   MaxU = 1
   ExhaustionReturnsLast = FALSE
+  ReturnedIdReleased = FALSE
   WithLapse = FALSE
   Emit = FALSE
 INIT Init
